@@ -247,6 +247,24 @@ def run(rep, tier, root=None):
                   fpc.fq + ": one elementwise closed form k (L0/r0)^(5/3) x^(5/6) K_5/6(x) for every separation",
                   "the covariance is not a single elementwise Bessel law for all separations (%s): the stencil and the new row can span "
                   "separations on which Cov is then not the von Karman covariance" % (sorted(set(a.name for a in npw)) or nf(cv, 200)), fpc.where())
+    # ---- K14 the innovation is independent of the existing screen: one generator stream per instance
+    fps = ix.func("aotools.turbulence.phasescreen", "ft_phase_screen")
+    spos = fps.params.index("seed") if "seed" in fps.params else None
+    for cname in ("PhaseScreenVonKarman", "PhaseScreenKolmogorov"):
+        cls = ix.cls(MOD, cname)
+        m, I_, o, paths = run_method(ix, cls, "make_initial_screen", opaque={fps.fq})
+        R = o.attrs.get("_R")
+        scr = o.attrs.get("_scrn")
+        calls = find_atoms(scr, lambda a: isinstance(a, Fn) and a.name == "call:" + fps.fq) if isinstance(scr, Rat) else []
+        if spos is None or len(calls) != 1 or R is None:
+            rep.unknown("K14.independent-innovation", cls.fq + ".make_initial_screen", "cannot find the generator / the call that draws the initial screen", m.where())
+            continue
+        arg = calls[0].args[spos]
+        seed_atom = A("random_seed")
+        raw = isinstance(arg, Rat) and not same_value(arg, R) and seed_atom.single_atom() in arg.atoms(True)
+        rep.check(not raw, "K14.independent-innovation", cls.fq + ": initial screen and innovations come from one generator stream",
+                  "the initial screen is drawn by a second generator built from the same seed (%s) as the instance generator that draws the "
+                  "innovations: both produce the same numbers, so the new rows are correlated with the screen they extend" % nf(arg, 80), m.where())
     # ---- K13 every instance builds its matrices from its own parameters only
     funcs = [f for f in mod.all_functions()]
     purity_obligations(rep, ix, funcs + [fpc], "K13.no-shared-state",
